@@ -6,7 +6,9 @@
            g t r as in the harness; T = get_next_message(Duration 5 s), i = Infinite.
            a token is prefixed with ^ when a `t` (1 ms) op finds a whole message that still has to be read from
            the socket (the caller turns it into `T`), and with ! when a `T`/`i` op does not find a whole message
-           (the caller turns it into `g`): outcomes must not depend on timing
+           (the caller turns it into `g`); likewise R/j (read_once with 5 s / Infinite) -> r. z/Z = get_next_message
+           with Duration(0)/(1 ns): the model's KTimeUp choice; % marks one that met a partly filled buffer.
+           Outcomes must not depend on timing
      kprobe <hex:nfds;...> <req.req...>       -> <bytes>:<nfds> | A  per request (Linux choice) *)
 open Gen_model
 
@@ -17,10 +19,17 @@ let int_of_n = function N0 -> 0 | Npos p -> int_of_pos p
 let rec nat_of_int n = if n = 0 then O else S (nat_of_int (n - 1))
 
 let hex_of_list l =
-  if l = [] then "-" else String.concat "" (List.map (fun n -> Printf.sprintf "%02x" (int_of_n n)) l)
+  if l = [] then "-" else begin
+    let b = Buffer.create 1024 in
+    List.iter (fun n -> Buffer.add_string b (Printf.sprintf "%02x" (int_of_n n))) l; Buffer.contents b end
+let byte_table = Array.init 256 n_of_int
+let hexval c = match c with '0'..'9' -> Char.code c - 48 | 'a'..'f' -> Char.code c - 87 | _ -> Char.code c - 55
 let list_of_hex s =
-  if s = "-" then [] else
-  List.init (String.length s / 2) (fun i -> n_of_int (int_of_string ("0x" ^ String.sub s (2 * i) 2)))
+  if s = "-" then [] else begin
+    let acc = ref [] in
+    for i = String.length s / 2 - 1 downto 0 do
+      acc := byte_table.(16 * hexval s.[2 * i] + hexval s.[2 * i + 1]) :: !acc
+    done; !acc end
 
 (* the header-field array is kept as raw bytes: its decoding is not C09's subject *)
 let dec _ b = Some b
@@ -59,12 +68,17 @@ let run stream nfds events =
         pos := !pos + len;
         let fds = match fi with Some i -> fds_of_msg nfds i | None -> [] in
         q := kwrite !q bytes fds
-    | 'g' | 't' | 'T' | 'i' | 'r' ->
+    | 'g' | 't' | 'T' | 'i' | 'r' | 'z' | 'Z' | 'R' | 'j' | 'q' ->
         let fuel = nat_of_int (int_of_n (kavail !q) + 3) in
         let cs = linux_choices fuel !st !q in
         let nonempty = !q <> [] in
+        let partial = int_of_n (!st).filled > 0 in
         let e = match ev.[0] with
-          | 'g' -> GetNext (Nonblock, cs) | 't' | 'T' | 'i' -> GetNext (Timed, cs) | _ -> ReadOnce (Nonblock, cs) in
+          | 'g' -> GetNext (Nonblock, cs) | 't' | 'T' | 'i' -> GetNext (Timed, cs)
+          (* Duration(0) / Duration(1 ns): the clock check of the first loop iteration fails *)
+          | 'z' | 'Z' -> GetNext (Timed, [KTimeUp])
+          | 'r' -> ReadOnce (Nonblock, cs)
+          | _ -> ReadOnce (Timed, cs) in
         let ((st', q'), os) = step dec e !st !q in
         st := st'; q := q';
         let is_msg = List.exists (function OMsg _ -> true | _ -> false) os in
@@ -73,6 +87,10 @@ let run stream nfds events =
         let mark = match ev.[0] with
           | 't' -> if is_msg && nonempty then "^" else ""
           | 'T' | 'i' -> if is_msg then "" else "!"
+          (* read_once with a real deadline / none: only where it returns at once *)
+          | 'R' | 'j' -> if List.exists (function ODone -> true | _ -> false) os then "" else "!"
+          (* an expired deadline met a partly filled buffer: the time-up branch with something to lose *)
+          | 'z' | 'Z' -> if partial && not is_msg then "%" else ""
           | _ -> "" in
         List.iter (fun o -> out := (mark ^ show_obs o) :: !out) os
     | _ -> out := "?" :: !out) events;
